@@ -4,7 +4,7 @@
 import json, subprocess
 
 BUILT = {
- "C19": ("exploration", "reference conversion (encoding/csv configured like the importer + independent type conversion) vs the real makeConfig/colDataTypes/doBatchInsert driven in-package (go test -overlay): event accounting in arrival order and stored rows read back",
+ "C19": ("exploration", "reference conversion (encoding/csv configured like the importer + independent type conversion) vs the real makeConfig/colDataTypes/doBatchInsert driven in-package (go test -overlay): event accounting in arrival order and stored rows read back; plus the csvimport binary end to end (flags, stdin, stdout reports, exit status) between two engine processes",
          "Held on the streams explored: all four destination types, mappings, separators, NULL markers, short records, bad quoting, unparsable / out-of-range numbers, oversized rows.",
          "what a record is, is decided by encoding/csv; canonical number spellings only"),
  "C20": ("exploration", "typed vs submitted statements compared as token sequences (real SQL tokenizer) on the real Terminal.ReadLine driven in-package (go test -overlay); plus whole console sessions end to end: the console's runTerminal on a pseudo-terminal with a real Session, effects read back from the database",
